@@ -103,6 +103,7 @@ func main() {
 	retainedKeysSide(r)
 	vectorSide(r)
 	referenceFilesSide(r)
+	stanzaShapesSide(r)
 	collidingValuesSide(r)
 	r.Finish()
 }
